@@ -7,6 +7,7 @@
 //   layout B: ORDER BY utf8          rows <= 4, utf8 in {"a","prefixprefix_a","prefixprefix_b","prefixprefix_","q"}
 //                                    (12-byte prefix ties resolved on the heap), every hint 1..rows
 //   layout C: ORDER BY utf8 DESC, int32 DESC  rows <= 3, same domains as A
+//   layout D: ORDER BY binary         rows <= 4, values sharing their first 12 bytes (incl. a trailing NUL byte)
 use super::*;
 use crate::arrays::array::Array;
 use crate::arrays::datatype::DataType;
@@ -22,7 +23,16 @@ fn sort_ids(key_layout: &SortLayout, strs: &[&str], ints: Option<&[i32]>, hint: 
     let n = strs.len();
     let data_layout = RowLayout::try_new([DataType::int32()]).unwrap();
     let mut collection = PartialSortedRowCollection::new(key_layout.clone(), data_layout, 16);
-    let mut keys = vec![Array::try_from_iter(strs.iter().copied()).unwrap()];
+    let is_binary = key_layout.columns[0].datatype == DataType::binary();
+    let mut keys = if is_binary {
+        let mut a = Array::new(&DefaultBufferManager, DataType::binary(), n.max(1)).unwrap();
+        for (i, s) in strs.iter().enumerate() {
+            a.set_value(i, &crate::arrays::scalar::BorrowedScalarValue::Binary(std::borrow::Cow::Borrowed(s.as_bytes()))).unwrap();
+        }
+        vec![a]
+    } else {
+        vec![Array::try_from_iter(strs.iter().copied()).unwrap()]
+    };
     if let Some(ints) = ints {
         keys.push(Array::try_from_iter(ints.iter().copied()).unwrap());
     }
@@ -97,6 +107,9 @@ fn c02c08_sort_block__limit_hint_is_sort_then_slice__nat() {
     cases += check_family(&a, &["a", "b", "c"], Some(&[0, 1, 2]), 4, false);
     cases += check_family(&b, &["a", "prefixprefix_a", "prefixprefix_b", "prefixprefix_", "q"], None, 4, false);
     cases += check_family(&c, &["a", "b", "c"], Some(&[0, 1, 2]), 3, true);
+    // layout D: ORDER BY a BINARY key (same prefix / heap machinery as text, selected by the data type of the key)
+    let d = SortLayout::try_new([SortColumn::new_asc_nulls_last(DataType::binary())]).unwrap();
+    cases += check_family(&d, &["a", "prefixprefix_a", "prefixprefix_b", "prefixprefix", "prefixprefix\0"], None, 4, false);
     assert!(cases > 20000);
 }
 
